@@ -12,6 +12,8 @@ import (
 	"path/filepath"
 	"regexp"
 	"runtime"
+	"runtime/debug"
+	"runtime/pprof"
 	"sort"
 	"strconv"
 	"strings"
@@ -26,6 +28,10 @@ const modPath = "github.com/256dpi/lungo"
 var verifDir = "/verif"
 
 func main() {
+	// the interpreter allocates many short-lived values: trade memory for fewer collections
+	if os.Getenv("GOGC") == "" {
+		debug.SetGCPercent(100)
+	}
 	if d := os.Getenv("VERIF_DIR"); d != "" {
 		verifDir = d
 	} else if exe, err := os.Executable(); err == nil {
@@ -246,6 +252,11 @@ func cmdRun(args []string) int {
 		return 2
 	}
 	fmt.Fprintf(os.Stderr, "loaded in %.1fs\n", prog.LoadS)
+	if pf := os.Getenv("GOSYM_PROF"); pf != "" {
+		f, _ := os.Create(pf)
+		pprof.StartCPUProfile(f)
+		defer pprof.StopCPUProfile()
+	}
 	res := prog.Run(pkgPathOf(dir), harness, cfg, opts)
 	fmt.Printf("%s: paths=%d steps=%d queries=%d (unsat %d sat %d unknown %d) solver=%.1fs wall=%.1fs outcomes=%v withAssert=%d truncated=%v\n",
 		res.Harness, res.Paths, res.Steps, res.Queries, res.Unsat, res.Sat, res.Unknown, res.SolverS, res.WallS, res.Outcomes, res.PathsWithAssert, res.Truncated)
